@@ -244,6 +244,15 @@ func (c *compiler) compileType(y *Type, parent Leafable, isUnion bool) error {
 		return errors.New("no type set on " + SchemaPath(parent))
 	}
 	if int(y.format) != 0 {
+		// the type was already resolved through another copy of the leaf (copies of a
+		// grouping share their *Type), but default and units live on each leaf
+		if _, builtinType := val.TypeAsFormat(y.ident); !builtinType && !isUnion {
+			tdef, err := c.findTypedef(y, parent, y.ident)
+			if err != nil {
+				return err
+			}
+			inheritFromTypedef(parent, tdef)
+		}
 		if _, isList := parent.(*LeafList); isList && !y.format.IsList() {
 			y.format = y.format.List()
 		}
@@ -262,14 +271,7 @@ func (c *compiler) compileType(y *Type, parent Leafable, isUnion bool) error {
 		tdef.dtype.mixin(y)
 
 		if !isUnion {
-			if !parent.HasDefault() {
-				if tdef.HasDefault() {
-					parent.setDefaultValue(tdef.DefaultValue())
-				}
-			}
-			if parent.Units() == "" {
-				parent.setUnits(tdef.Units())
-			}
+			inheritFromTypedef(parent, tdef)
 		}
 	}
 
@@ -362,6 +364,19 @@ func (c *compiler) compileType(y *Type, parent Leafable, isUnion bool) error {
 	}
 
 	return nil
+}
+
+// inheritFromTypedef gives a leaf the default and units of its typedef unless
+// the leaf states its own
+func inheritFromTypedef(parent Leafable, tdef *Typedef) {
+	if !parent.HasDefault() {
+		if tdef.HasDefault() {
+			parent.setDefaultValue(tdef.DefaultValue())
+		}
+	}
+	if parent.Units() == "" {
+		parent.setUnits(tdef.Units())
+	}
 }
 
 func (c *compiler) findTypedef(y *Type, parent Definition, qualifiedIdent string) (*Typedef, error) {
